@@ -228,7 +228,7 @@ def _resp_persisted(ticks: list[dict[str, Any]], uid: int) -> bool:
 
 
 def execute(ex: Execution, pname: str, backend: str, crash_at: int | None, network: bool = False,
-            crash_at2: int | None = None) -> tuple[Any, list[Any]]:
+            crash_at2: int | None = None, restart_fault: bool = False) -> tuple[Any, list[Any]]:
     """``network``: the second process reads the store like a network-backed one (Postgres, agent-data) - reading a
     handler row or the tick log suspends, so client requests can arrive while the start-up resume is under way"""
     prog = PROGRAMS[pname]
@@ -360,6 +360,19 @@ def execute(ex: Execution, pname: str, backend: str, crash_at: int | None, netwo
         ended = any(_is_terminal_tick(td, pname) for td in ticks)
         h_at_crash = _handler(loop2, store2)
         idle_since_at_crash = getattr(h_at_crash, "idle_since", None)
+        fault = {"left": 1 if restart_fault else 0, "hit": False}
+        if restart_fault:
+            # one transient failure of a handler-record write while the restarted server goes through its handlers
+            orig_update2 = store2.update
+
+            async def update2(handler: Any) -> None:
+                if fault["left"] and ex.choose(2, "store_write", ["ok", "fails"]) == 1:
+                    fault["left"] -= 1
+                    fault["hit"] = True
+                    raise OSError("transient store failure")
+                await orig_update2(handler)
+
+            store2.update = update2  # type: ignore[method-assign]
         if crashed:
             stack2 = sh.Stack(store2, idle_timeout=10_000.0)
             wf2 = prog["make"]()(timeout=None)
@@ -394,6 +407,8 @@ def execute(ex: Execution, pname: str, backend: str, crash_at: int | None, netwo
             wk["store_reads_suspend"] = True
         if crash_at2 is not None:
             wk["process_stops"] = 2
+        if restart_fault:
+            wk["status_write_failed_once_during_restart"] = fault["hit"]
         if idle_flag:
             # root cause of an idle flag on a working run: announced by the run itself (the recorded spurious-idle finding), or
             # left over from before the run was reloaded on demand (a reload must clear it)
@@ -546,6 +561,14 @@ def programs(tier: str) -> list[Program]:
                                       {"program": pname, "backend": backend, "crash_at": k, "crash_at2": j},
                                       (lambda ex, pname=pname, backend=backend, k=k, j=j: execute(ex, pname, backend, k, crash_at2=j)),
                                       max_dev=(1 if q else 2)))
+    # one transient failure of a handler-record write during the restart (where the log already ends the run: the finalisation)
+    for pname in (("chain", "fail", "cancel") if q else ("chain", "fanin", "retry", "recover", "fail", "cancel")):
+        for backend in (("memory",) if q else ("memory", "sqlite")):
+            for k in range(3, 12):
+                ps.append(Program(f"{pname}/{backend}/crash_after_tick_{k:02d}/restart_write_fault",
+                                  {"program": pname, "backend": backend, "crash_at": k, "restart_fault": True},
+                                  (lambda ex, pname=pname, backend=backend, k=k: execute(ex, pname, backend, k, restart_fault=True)),
+                                  max_dev=(2 if q else 3)))
     # idle release and on-demand reload before the process stops
     for backend in ("memory", "sqlite"):
         for k in range(1, 9):
